@@ -15,6 +15,7 @@ from typing import Dict, List, Optional, Set, Tuple
 from sa.cfg import CFG, forward, guards, witness_path
 from sa.intervals import DOMAIN, Evaluator, fmt
 from sa.model import AnalysisError, Function, Module, Repo, calls_in, const_str, dotted, norm, own_nodes
+from sa.match import Locals
 from sa.report import Report
 from sa.templates import template_of
 
@@ -150,6 +151,17 @@ def run(repo: Repo, rep: Report, tier: str) -> None:
     for r in raises:
         call = r.ast.exc if isinstance(r.ast.exc, ast.Call) else None  # type: ignore[union-attr]
         kws = {k.arg: norm(k.value) for k in call.keywords} if call else {}
+        # building the error must not be able to fail with something else: arguments are plain reads of the response, no decoding / parsing
+        TL = Locals(tr.node)
+        risky = [x for a in (list(call.args) + [k.value for k in call.keywords] if call else []) for x in ast.walk(TL.inline(a))
+                 if isinstance(x, ast.Call) and not (isinstance(x.func, ast.Name) and x.func.id in ("str", "repr", "int"))
+                 and not any(k.arg == "errors" for k in x.keywords)]
+        if risky:
+            rep.violation("R6.5", f"{tr.module.relpath}:HttpxTransport.request raise args are total", f"{tr.fq}|raise-arg-can-fail|{norm(risky[0].func)[-30:]}",
+                          f"`{norm(risky[0])[:60]}` is evaluated while the error is being built: if it raises (e.g. a body that is not valid UTF-8 / JSON) the "
+                          "caller gets that exception instead of an HTTPError carrying status and response", tr.loc(r.ast))
+        elif call is not None:
+            rep.ok("R6.5", f"{tr.module.relpath}:HttpxTransport.request raise args are total", "the error is built from plain attribute reads of the response", tr.loc(r.ast))
         if kws.get("status_code") == f"{resp_var}.status_code" and kws.get("response") == resp_var:
             rep.ok("R6.5", f"{tr.module.relpath}:HttpxTransport.request raise args", "status_code=response.status_code, response=response", tr.loc(r.ast))
         else:
